@@ -312,7 +312,7 @@ pub fn tie_pair_ops(n: u32, es: u32, op_lo: u8, op_hi: u8) -> BoxedStrategy<(u8,
         let (a, b) = out.unwrap_or(fallback);
         // delta: nudge b by one ulp to land just above / just below the threshold
         // (by 2^j encodings, j drawn: the sticky information then sits at a drawn depth)
-        let j = ((raw >> 48) % (n as u64 - 3).max(1)) as u32;
+        let j = ((raw >> 48) % (n as u64).saturating_sub(3).max(1)) as u32;
         let step = if raw >> 47 & 1 == 0 { 1u64 } else { 1u64 << j };
         let b = match delta {
             1 => b.wrapping_add(step) & m,
